@@ -18,6 +18,7 @@ import (
 	"net/http/httptest"
 	"net/url"
 	"reflect"
+	goruntime "runtime"
 	"sort"
 	"strings"
 	"sync"
@@ -33,22 +34,23 @@ import (
 	"k8s.io/apimachinery/pkg/util/sets"
 	"k8s.io/apiserver/pkg/authentication/authenticator"
 	"k8s.io/apiserver/pkg/authentication/request/bearertoken"
-	genericapifilters "k8s.io/apiserver/pkg/endpoints/filters"
 	"k8s.io/apiserver/pkg/authentication/user"
 	"k8s.io/apiserver/pkg/authorization/authorizer"
 	apirequest "k8s.io/apiserver/pkg/endpoints/request"
 	"k8s.io/client-go/kubernetes"
 	"k8s.io/client-go/kubernetes/fake"
+	"k8s.io/client-go/kubernetes/scheme"
+	utilwaitgroup "k8s.io/apimachinery/pkg/util/waitgroup"
+	genericapiserver "k8s.io/apiserver/pkg/server"
 	authenticationv1client "k8s.io/client-go/kubernetes/typed/authentication/v1"
 	authorizationv1client "k8s.io/client-go/kubernetes/typed/authorization/v1"
 
 	tokwebhook "github.com/kubewharf/kubegateway/pkg/gateway/authentication/token/webhook"
 	sarwebhook "github.com/kubewharf/kubegateway/pkg/gateway/authorization/webhook"
 
+	gatewayapp "github.com/kubewharf/kubegateway/cmd/kube-gateway/app"
 	proxyv1alpha1 "github.com/kubewharf/kubegateway/pkg/apis/proxy/v1alpha1"
 	"github.com/kubewharf/kubegateway/pkg/clusters"
-	"github.com/kubewharf/kubegateway/pkg/gateway/endpoints/monitor"
-	proxydispatcher "github.com/kubewharf/kubegateway/pkg/gateway/proxy/dispatcher"
 	"github.com/kubewharf/kubegateway/pkg/gateway/endpoints/filters"
 	"github.com/kubewharf/kubegateway/pkg/gateway/endpoints/request"
 
@@ -108,7 +110,38 @@ type reqRec struct {
 	attempts int // attempts of the review made so far (retries after a retryable error)
 }
 
+// thread: a logical thread of the history. The history itself is one; every nested request scheduled inside another
+// request runs on its own (goroutine), strictly alternating with its parent: the parent waits until the nested request has
+// finished or the whole process has gone quiet (the nested request waits for something only the parent can release).
+type thread struct {
+	name    string
+	parent  *thread
+	stack   []*reqRec  // requests this thread is inside (innermost last)
+	pipes   []*pipeRec // whole-chain requests this thread is inside
+	done    chan struct{}
+	blocked string // diagnosis when it was found waiting
+}
+
+type pipeRec struct {
+	m           *Macro
+	id          int
+	info        *request.ExtraRequestInfo
+	authnCalled bool
+	authnPassed bool
+	sarPassed   bool
+	proxy       *epRec // endpoint whose ProxyTransport received the request
+}
+
 type world struct {
+	cur        *thread
+	overlapped []*thread // nested requests found waiting for the request they overlap (still running)
+	overlaps   []string  // diagnoses: which request waited for which reply
+	stuck      []string  // nested requests that never finished
+	stackBuf   []byte
+	chainH     http.Handler
+	extraAttrs []Attrs  // attributes the chain built that are not in the case
+	extraKeys  []string // their spec keys
+
 	cs       *Case
 	mgr      clusters.Manager
 	insts    map[int]*instRec
@@ -119,7 +152,6 @@ type world struct {
 	specKeys []string // JSON of the SubjectAccessReviewSpec of cs.Attrs[i], computed by the harness
 	clock    int
 	nextRid  int
-	stack    []*reqRec
 	outs     []ImplOut
 	mu       sync.Mutex
 
@@ -129,7 +161,6 @@ type world struct {
 	dropTimeouts int
 
 	pipes     int     // whole-chain requests started
-	lastProxy *epRec  // endpoint whose ProxyTransport received the last proxied request
 
 	terminated    int      // bound requests ended by WithUpstreamInfo (host not proxied)
 	chainProblems []string // anomalies outside the authenticator / authorizer
@@ -146,17 +177,17 @@ func (p *provider) ClientFor(host string) (*clusters.ClusterInfo, kubernetes.Int
 	if top != nil {
 		top.calls++
 		if top.kind == "tok" && top.calls == 2 && len(top.m.Mid1) > 0 {
-			w.runMacros(top.m.Mid1)
+			w.runMids(top.m.Mid1)
 		}
 		// the authorizer resolves the host once; should it ever resolve it again, the scheduled events come first
 		if top.kind == "sar" && top.calls == 2 && !top.midDone {
 			top.midDone = true
-			w.runMacros(top.m.Mid)
+			w.runMids(top.m.Mid)
 		}
 		// likewise a third resolution by the authenticator
 		if top.kind == "tok" && top.calls == 3 && !top.midDone {
 			top.midDone = true
-			w.runMacros(top.m.Mid2)
+			w.runMids(top.m.Mid2)
 		}
 	}
 	c, client, err := w.mgr.ClientFor(host) // the REAL manager.ClientFor
@@ -181,7 +212,7 @@ func (p *provider) ClientFor(host string) (*clusters.ClusterInfo, kubernetes.Int
 
 func newWorld(cs *Case) *world {
 	w := &world{cs: cs, mgr: clusters.NewManager(), insts: map[int]*instRec{}, byPtr: map[*clusters.ClusterInfo]int{},
-		byClient: map[kubernetes.Interface]*epRec{}}
+		byClient: map[kubernetes.Interface]*epRec{}, cur: &thread{name: "the history"}}
 	p := &provider{w}
 	w.authn = tokwebhook.NewMultiClusterTokenReviewAuthenticator(p, ttlDur(cs.Cfg.SuccessTTL), ttlDur(cs.Cfg.FailureTTL), nil)
 	w.authz = sarwebhook.NewMultiClusterSubjectAccessReviewAuthorizer(p, ttlDur(cs.Cfg.AllowTTL), ttlDur(cs.Cfg.DenyTTL))
@@ -219,10 +250,145 @@ func (w *world) close() {
 }
 
 func (w *world) top() *reqRec {
-	if len(w.stack) == 0 {
+	if w.cur == nil || len(w.cur.stack) == 0 {
 		return nil
 	}
-	return w.stack[len(w.stack)-1]
+	return w.cur.stack[len(w.cur.stack)-1]
+}
+
+func (w *world) topPipe() *pipeRec {
+	if w.cur == nil || len(w.cur.pipes) == 0 {
+		return nil
+	}
+	return w.cur.pipes[len(w.cur.pipes)-1]
+}
+
+// describe: what the thread is doing (for diagnoses)
+func (t *thread) describe() string {
+	if len(t.stack) == 0 {
+		return t.name
+	}
+	r := t.stack[len(t.stack)-1]
+	what := fmt.Sprintf("%s request %d for host %q", r.kind, r.rid, rig.UnHex(r.m.Host))
+	if r.attempts > 0 || len(r.hits) > 0 {
+		what += fmt.Sprintf(" (its review has been sent to instance %d and is held open by the script)", r.hits[len(r.hits)-1].Inst)
+	} else {
+		what += " (no review sent yet)"
+	}
+	return what
+}
+
+// quiescent: no goroutine of the process other than the caller can make progress right now (none running, runnable,
+// sleeping on a timer or in a system call) — so a nested request that has not finished is waiting for its parent.
+func (w *world) quiescent() bool {
+	if w.stackBuf == nil {
+		w.stackBuf = make([]byte, 4<<20)
+	}
+	n := goruntime.Stack(w.stackBuf, true)
+	first := true
+	for _, line := range strings.Split(string(w.stackBuf[:n]), "\n") {
+		if !strings.HasPrefix(line, "goroutine ") {
+			continue
+		}
+		if first { // the caller itself
+			first = false
+			continue
+		}
+		i, j := strings.IndexByte(line, '['), strings.IndexByte(line, ']')
+		if i < 0 || j < i {
+			continue
+		}
+		state := line[i+1 : j]
+		if k := strings.IndexByte(state, ','); k >= 0 {
+			state = state[:k]
+		}
+		switch state {
+		case "running", "runnable", "sleep", "syscall":
+			return false
+		}
+	}
+	return true
+}
+
+// await waits until thread t has finished (true) or is found waiting while nothing else can run (false).
+func (w *world) await(t *thread) bool {
+	select {
+	case <-t.done:
+		return true
+	case <-time.After(2 * time.Millisecond):
+	}
+	quiet := 0
+	deadline := time.Now().Add(20 * time.Second)
+	for {
+		select {
+		case <-t.done:
+			return true
+		default:
+		}
+		if w.quiescent() {
+			quiet++
+			if quiet >= 4 {
+				return false
+			}
+		} else {
+			quiet = 0
+		}
+		if time.Now().After(deadline) {
+			return false
+		}
+		time.Sleep(300 * time.Microsecond)
+	}
+}
+
+// spawn runs a nested request on its own thread, alternating with the current one.
+func (w *world) spawn(name string, f func()) {
+	parent := w.cur
+	t := &thread{name: name, parent: parent, done: make(chan struct{})}
+	w.cur = t
+	go func() {
+		defer close(t.done)
+		if msg, panicked := rig.Recover(f); panicked {
+			w.mu.Lock()
+			w.chainProblems = append(w.chainProblems, "panic in a nested request: "+msg)
+			w.mu.Unlock()
+		}
+	}()
+	finished := w.await(t)
+	w.cur = parent
+	if finished {
+		return
+	}
+	// the nested request is waiting although nothing else runs: it waits for the request(s) it overlaps
+	t.blocked = fmt.Sprintf("%s waits (nothing else can run) while %s", t.describe(), parent.describe())
+	w.mu.Lock()
+	w.overlapped = append(w.overlapped, t)
+	w.overlaps = append(w.overlaps, t.blocked)
+	w.mu.Unlock()
+}
+
+// join: the current thread has finished a call; nested requests that were found waiting for it must finish now.
+func (w *world) join() {
+	me := w.cur
+	w.mu.Lock()
+	var mine, rest []*thread
+	for _, t := range w.overlapped {
+		if t.parent == me {
+			mine = append(mine, t)
+		} else {
+			rest = append(rest, t)
+		}
+	}
+	w.overlapped = rest
+	w.mu.Unlock()
+	for _, t := range mine {
+		w.cur = t
+		if !w.await(t) {
+			w.mu.Lock()
+			w.stuck = append(w.stuck, t.describe()+" is still waiting after the request it overlapped ("+me.describe()+") was answered")
+			w.mu.Unlock()
+		}
+		w.cur = me
+	}
 }
 
 func (w *world) instName(id int) string {
@@ -267,6 +433,13 @@ func (w *world) sarAnswer(inst int, key string) (SarAns, bool) {
 			known = true
 		}
 	}
+	w.mu.Lock()
+	for _, k := range w.extraKeys {
+		if k == key {
+			known = true
+		}
+	}
+	w.mu.Unlock()
 	for _, r := range w.cs.SarOracle {
 		if r.Inst == inst && r.Attrs < len(w.specKeys) && w.specKeys[r.Attrs] == key && r.From <= w.clock {
 			return r.Ans, known
@@ -327,7 +500,7 @@ func (t *stubTokenReviews) Create(ctx context.Context, in *authenticationv1.Toke
 	top := t.s.hit()
 	if top != nil && !top.midDone {
 		top.midDone = true
-		w.runMacros(top.m.Mid2) // the review is in flight
+		w.runMids(top.m.Mid2) // the review is in flight
 	}
 	tr := in.DeepCopy()
 	ans := w.tokAnswer(ep.inst, tr.Spec.Token)
@@ -359,7 +532,7 @@ func (t *stubSARs) Create(ctx context.Context, in *authorizationv1.SubjectAccess
 	top := t.s.hit()
 	if top != nil && !top.midDone {
 		top.midDone = true
-		w.runMacros(top.m.Mid) // the review is in flight
+		w.runMids(top.m.Mid) // the review is in flight
 	}
 	sar := in.DeepCopy()
 	b, _ := json.Marshal(sar.Spec)
@@ -387,7 +560,9 @@ type upstreamStub struct {
 }
 
 func (u *upstreamStub) RoundTrip(req *http.Request) (*http.Response, error) {
-	u.w.lastProxy = u.ep
+	if p := u.w.topPipe(); p != nil {
+		p.proxy = u.ep
+	}
 	return &http.Response{StatusCode: 200, Status: "200 OK", Proto: "HTTP/1.1", ProtoMajor: 1, ProtoMinor: 1,
 		Header: http.Header{"Content-Type": []string{"application/json"}}, Body: io.NopCloser(strings.NewReader("{}")), Request: req}, nil
 }
@@ -575,14 +750,22 @@ func (w *world) tick() {
 }
 
 // beginReq: the authenticator / authorizer is about to be called; request ids are handed out in this order
-func (w *world) beginReq(kind string, m *Macro) *reqRec {
+func (w *world) beginReq(kind string, m *Macro) (*reqRec, *thread) {
+	t := w.cur
+	w.mu.Lock()
 	r := &reqRec{rid: w.nextRid, kind: kind, m: m}
 	w.nextRid++
-	w.stack = append(w.stack, r)
-	return r
+	w.mu.Unlock()
+	t.stack = append(t.stack, r)
+	return r, t
 }
 
-func (w *world) endReq() { w.stack = w.stack[:len(w.stack)-1] }
+func (w *world) endReq(t *thread) {
+	t.stack = t.stack[:len(t.stack)-1]
+	if w.cur == t {
+		w.join()
+	}
+}
 
 var codecs = serializer.NewCodecFactory(runtime.NewScheme())
 
@@ -610,7 +793,7 @@ func (w *world) through(m *Macro, next func(ctx context.Context, hostname string
 				up = id
 			}
 		}
-		w.runMacros(m.Mid0)
+		w.runMids(m.Mid0)
 		hostname := ""
 		if info != nil {
 			hostname = info.Hostname
@@ -666,12 +849,11 @@ func requestCtx(hostport string) (context.Context, string, error) {
 func (w *world) tokStage(ctx context.Context, host string, upstream int, m *Macro, tok string, pipe int) (*authenticator.Response, bool, error) {
 	w.tick()
 	own, ownReady := w.resolve(host)
-	r := w.beginReq("tok", m)
+	r, t := w.beginReq("tok", m)
 	var resp *authenticator.Response
 	var ok bool
 	var err error
 	msg, panicked := rig.Recover(func() { resp, ok, err = w.authn.AuthenticateToken(ctx, tok) })
-	w.endReq()
 	out := ImplOut{Kind: "tok", Rid: r.rid, Host: m.Host, Tok: m.Tok, Own: own, OwnReady: ownReady, Upstream: upstream,
 		Time: w.clock, Reviewed: len(r.hits) > 0, Hits: r.hits, Problem: r.problem, Pipe: pipe, Proxied: -1}
 	switch {
@@ -693,7 +875,10 @@ func (w *world) tokStage(ctx context.Context, host string, upstream int, m *Macr
 	default:
 		out.Res = TokRes{K: "unauth"}
 	}
+	w.mu.Lock()
 	w.outs = append(w.outs, out)
+	w.mu.Unlock()
+	w.endReq(t)
 	return resp, ok, err
 }
 
@@ -773,18 +958,16 @@ func decisionName(d authorizer.Decision) string {
 	return fmt.Sprintf("decision-%d", int(d))
 }
 
-// sarStage: one call of the real authorizer for macro m, observed
-func (w *world) sarStage(ctx context.Context, host string, upstream int, m *Macro, pipe int) (authorizer.Decision, error) {
-	rec := attrsRecord(&w.cs.Attrs[m.Attrs])
+// sarStage: one call of the real authorizer for macro m with the given attributes (index idx in the case), observed
+func (w *world) sarStage(ctx context.Context, host string, upstream int, m *Macro, rec authorizer.Attributes, idx int, pipe int) (authorizer.Decision, string, error) {
 	w.tick()
 	own, ownReady := w.resolve(host)
-	r := w.beginReq("sar", m)
+	r, t := w.beginReq("sar", m)
 	var d authorizer.Decision
 	var reason string
 	var err error
 	msg, panicked := rig.Recover(func() { d, reason, err = w.authz.Authorize(ctx, rec) })
-	w.endReq()
-	out := ImplOut{Kind: "sar", Rid: r.rid, Host: m.Host, Attrs: m.Attrs, Own: own, OwnReady: ownReady, Upstream: upstream,
+	out := ImplOut{Kind: "sar", Rid: r.rid, Host: m.Host, Attrs: idx, Own: own, OwnReady: ownReady, Upstream: upstream,
 		Time: w.clock, Reviewed: len(r.hits) > 0, Hits: r.hits, Problem: r.problem, Pipe: pipe, Proxied: -1}
 	if panicked {
 		out.Problem = "panic: " + msg
@@ -793,8 +976,66 @@ func (w *world) sarStage(ctx context.Context, host string, upstream int, m *Macr
 	} else {
 		out.Res = SarRes{D: decisionName(d), Reason: rig.Hex(reason), E: errKind(err)}
 	}
+	w.mu.Lock()
 	w.outs = append(w.outs, out)
-	return d, err
+	w.mu.Unlock()
+	w.endReq(t)
+	return d, reason, err
+}
+
+func toRecord(a authorizer.Attributes) authorizer.AttributesRecord {
+	return authorizer.AttributesRecord{User: a.GetUser(), Verb: a.GetVerb(), Namespace: a.GetNamespace(), APIGroup: a.GetAPIGroup(),
+		APIVersion: a.GetAPIVersion(), Resource: a.GetResource(), Subresource: a.GetSubresource(), Name: a.GetName(),
+		ResourceRequest: a.IsResourceRequest(), Path: a.GetPath()}
+}
+
+// attrsIndex: which attributes of the case these are (same fields that reach the cluster and the size that decides
+// cacheability); -1 when none
+func (w *world) attrsIndex(a authorizer.Attributes) int {
+	rec := toRecord(a)
+	key := specKey(rec)
+	for i := range w.cs.Attrs {
+		c := attrsRecord(&w.cs.Attrs[i])
+		if w.specKeys[i] == key && c.Path == rec.Path && c.APIVersion == rec.APIVersion && c.ResourceRequest == rec.ResourceRequest {
+			return i
+		}
+	}
+	// attributes the chain built itself (the impersonation filter, for a user the case has no record for): they join the
+	// case's list for this run, so that the model's judge can be asked about them too; no oracle rule names them
+	w.mu.Lock()
+	defer w.mu.Unlock()
+	for i, x := range w.extraAttrs {
+		c := attrsRecord(&w.extraAttrs[i])
+		if specKey(c) == key && c.Path == rec.Path && c.APIVersion == rec.APIVersion && c.ResourceRequest == rec.ResourceRequest {
+			_ = x
+			return len(w.cs.Attrs) + i
+		}
+	}
+	na := Attrs{Verb: rig.Hex(rec.Verb), Ns: rig.Hex(rec.Namespace), APIGroup: rig.Hex(rec.APIGroup), APIVersion: rig.Hex(rec.APIVersion),
+		Resource: rig.Hex(rec.Resource), Subresource: rig.Hex(rec.Subresource), Name: rig.Hex(rec.Name), Path: rig.Hex(rec.Path),
+		ResourceRequest: rec.ResourceRequest}
+	if rec.User != nil {
+		u := &User{Name: rig.Hex(rec.User.GetName()), UID: rig.Hex(rec.User.GetUID()), Groups: []string{}, Extra: []ExtraKV{}}
+		for _, g := range rec.User.GetGroups() {
+			u.Groups = append(u.Groups, rig.Hex(g))
+		}
+		var ks []string
+		for k := range rec.User.GetExtra() {
+			ks = append(ks, k)
+		}
+		sort.Strings(ks)
+		for _, k := range ks {
+			kv := ExtraKV{K: rig.Hex(k)}
+			for _, x := range rec.User.GetExtra()[k] {
+				kv.V = append(kv.V, rig.Hex(x))
+			}
+			u.Extra = append(u.Extra, kv)
+		}
+		na.User = u
+	}
+	w.extraAttrs = append(w.extraAttrs, na)
+	w.extraKeys = append(w.extraKeys, key)
+	return len(w.cs.Attrs) + len(w.extraAttrs) - 1
 }
 
 func (w *world) doSar(m *Macro) {
@@ -802,26 +1043,61 @@ func (w *world) doSar(m *Macro) {
 		w.chainProblems = append(w.chainProblems, "attrs index out of range")
 		return
 	}
+	rec := attrsRecord(&w.cs.Attrs[m.Attrs])
 	reached, problem := w.through(m, func(ctx context.Context, host string, upstream int) {
-		w.sarStage(ctx, host, upstream, m, 0)
+		w.sarStage(ctx, host, upstream, m, rec, m.Attrs, 0)
 	})
 	w.afterChain(reached, problem)
 }
 
-// recToken lets the real WithAuthentication / bearertoken filters drive the observed authenticator stage.
-type recToken struct {
-	w    *world
-	m    *Macro
-	pipe int
-}
+// recToken / recAuthz are what the SHIPPED chain gets as authenticator and authorizer: the real multi-cluster
+// authenticator / authorizer, observed, with the scheduled events of the current whole-chain request run at the stage
+// boundaries (before authentication, after it, after the impersonation check = before the dispatcher).
+type recToken struct{ w *world }
 
 func (t *recToken) AuthenticateToken(ctx context.Context, token string) (*authenticator.Response, bool, error) {
+	w := t.w
+	p := w.topPipe()
+	if p == nil {
+		return nil, false, errors.New("harness: authenticator called outside a scheduled request")
+	}
 	info, _ := request.ExtraRequestInfoFrom(ctx)
 	host := ""
 	if info != nil {
 		host = info.Hostname
 	}
-	return t.w.tokStage(ctx, host, t.w.upstreamOf(info), t.m, token, t.pipe)
+	p.info, p.authnCalled = info, true
+	w.runMids(p.m.Mid0)
+	resp, ok, err := w.tokStage(ctx, host, w.upstreamOf(info), p.m, token, p.id)
+	if ok && err == nil {
+		p.authnPassed = true
+		w.runMids(p.m.MidA)
+		if p.m.Target == nil {
+			w.runMids(p.m.MidD)
+		}
+	}
+	return resp, ok, err
+}
+
+type recAuthz struct{ w *world }
+
+func (a *recAuthz) Authorize(ctx context.Context, attrs authorizer.Attributes) (authorizer.Decision, string, error) {
+	w := a.w
+	p := w.topPipe()
+	if p == nil {
+		return authorizer.DecisionDeny, "", errors.New("harness: authorizer called outside a scheduled request")
+	}
+	info, _ := request.ExtraRequestInfoFrom(ctx)
+	host := ""
+	if info != nil {
+		host = info.Hostname
+	}
+	d, reason, err := w.sarStage(ctx, host, w.upstreamOf(info), p.m, attrs, w.attrsIndex(attrs), p.id)
+	if err == nil && d == authorizer.DecisionAllow {
+		p.sarPassed = true
+		w.runMids(p.m.MidD)
+	}
+	return d, reason, err
 }
 
 func (w *world) upstreamOf(info *request.ExtraRequestInfo) int {
@@ -834,83 +1110,75 @@ func (w *world) upstreamOf(info *request.ExtraRequestInfo) int {
 	return -3
 }
 
-var (
-	throughput         = monitor.NewThroughputMonitor()
-	requestInfoFactory = &apirequest.RequestInfoFactory{APIPrefixes: sets.NewString("api", "apis"), GrouplessAPIPrefixes: sets.NewString("api")}
-)
-
-// doPipe: one request through the chain of cmd/kube-gateway/app/proxy.go, with scheduled events between every pair of
-// stages. Real: WithRequestInfo, WithTerminationMetrics, WithRequestReaderWriterWrapper, WithExtraRequestInfo,
-// WithUpstreamInfo, WithAuthentication + bearertoken over the real authenticator, the real authorizer (called with the
-// case's impersonation attributes and gated like WithNoLoggingImpersonation: error or anything but Allow => 403), and the
-// REAL dispatcher, whose endpoints' ProxyTransport records which cluster instance receives the request.
-func (w *world) doPipe(m *Macro) {
-	w.pipes++
-	pipe := w.pipes
-	if m.Attrs >= len(w.cs.Attrs) {
-		w.chainProblems = append(w.chainProblems, "attrs index out of range")
-		return
+// chain: the handler chain the shipped buildProxyHandlerChainFunc builds for this world's manager, authenticator and
+// authorizer (configuration as in harness/e2e.GenericConfig; audit, CORS, goaway, tracing are the identity here).
+func (w *world) chain() http.Handler {
+	if w.chainH == nil {
+		c := &genericapiserver.Config{}
+		c.Serializer = scheme.Codecs
+		c.LongRunningFunc = func(*http.Request, *apirequest.RequestInfo) bool { return false }
+		c.RequestInfoResolver = &apirequest.RequestInfoFactory{APIPrefixes: sets.NewString("api", "apis"), GrouplessAPIPrefixes: sets.NewString("api")}
+		c.HandlerChainWaitGroup = new(utilwaitgroup.SafeWaitGroup)
+		c.Authentication.Authenticator = bearertoken.New(&recToken{w})
+		c.Authorization.Authorizer = &recAuthz{w}
+		notProxied := http.HandlerFunc(func(rw http.ResponseWriter, _ *http.Request) { rw.WriteHeader(http.StatusNotFound) })
+		w.chainH = gatewayapp.VerifC12BuildProxyHandlerChain(w.mgr, notProxied, c)
 	}
-	real := proxydispatcher.NewDispatcher(w.mgr, false)
-	var h http.Handler = http.HandlerFunc(func(rw http.ResponseWriter, req *http.Request) {
-		w.runMacros(m.MidD)
-		info, _ := request.ExtraRequestInfoFrom(req.Context())
-		w.lastProxy = nil
-		rec := httptest.NewRecorder()
-		msg, panicked := rig.Recover(func() { real.ServeHTTP(rec, req) })
-		out := ImplOut{Kind: "disp", Rid: -1, Host: m.Host, Upstream: w.upstreamOf(info), Own: -1, Time: w.clock, Pipe: pipe, Proxied: -1, Code: rec.Code}
-		if w.lastProxy != nil {
-			out.Proxied = w.lastProxy.inst
-		}
-		if panicked {
-			out.Problem = "panic in the dispatcher: " + msg
-		}
-		w.outs = append(w.outs, out)
-		rw.WriteHeader(rec.Code)
-	})
-	afterAuthn := h
-	h = http.HandlerFunc(func(rw http.ResponseWriter, req *http.Request) {
-		w.runMacros(m.MidA)
-		if m.Attrs >= 0 {
-			info, _ := request.ExtraRequestInfoFrom(req.Context())
-			host := ""
-			if info != nil {
-				host = info.Hostname
-			}
-			d, err := w.sarStage(req.Context(), host, w.upstreamOf(info), m, pipe)
-			if err != nil || d != authorizer.DecisionAllow {
-				rw.WriteHeader(http.StatusForbidden)
-				return
-			}
-		}
-		afterAuthn.ServeHTTP(rw, req)
-	})
-	h = genericapifilters.WithAuthentication(h, bearertoken.New(&recToken{w, m, pipe}), http.HandlerFunc(func(rw http.ResponseWriter, _ *http.Request) {
-		rw.WriteHeader(http.StatusUnauthorized)
-	}), nil)
-	afterBind := h
-	h = http.HandlerFunc(func(rw http.ResponseWriter, req *http.Request) {
-		w.runMacros(m.Mid0)
-		afterBind.ServeHTTP(rw, req)
-	})
-	reached := false
-	bound := h
-	h = http.HandlerFunc(func(rw http.ResponseWriter, req *http.Request) { reached = true; bound.ServeHTTP(rw, req) })
-	h = filters.WithUpstreamInfo(h, w.mgr, codecs)
-	h = filters.WithExtraRequestInfo(h, infoFactory, codecs)
-	h = filters.WithRequestReaderWriterWrapper(h, throughput)
-	h = filters.WithTerminationMetrics(h)
-	h = genericapifilters.WithRequestInfo(h, requestInfoFactory)
+	return w.chainH
+}
+
+// doPipe: one request through the SHIPPED chain (cmd/kube-gateway/app/proxy.go buildProxyHandlerChainFunc, real dispatcher
+// included), with scheduled events at every stage boundary. The endpoints' ProxyTransport records which cluster instance
+// receives the request.
+func (w *world) doPipe(m *Macro) {
+	t := w.cur
+	w.mu.Lock()
+	w.pipes++
+	p := &pipeRec{m: m, id: w.pipes}
+	w.mu.Unlock()
+	t.pipes = append(t.pipes, p)
 	req := httptest.NewRequest("GET", "/api/v1/namespaces/default/pods", nil)
 	req.Host = rig.UnHex(m.Host)
 	req.Header.Set("Authorization", "Bearer "+rig.UnHex(m.Tok))
+	if m.Target != nil {
+		req.Header.Set("Impersonate-User", rig.UnHex(*m.Target))
+	}
 	rec := httptest.NewRecorder()
-	msg, panicked := rig.Recover(func() { h.ServeHTTP(rec, req) })
+	msg, panicked := rig.Recover(func() { w.chain().ServeHTTP(rec, req) })
+	t.pipes = t.pipes[:len(t.pipes)-1]
 	problem := ""
 	if panicked {
 		problem = "panic in the filter chain: " + msg
 	}
-	w.afterChain(reached, problem)
+	if p.authnPassed && (m.Target == nil || p.sarPassed) { // the dispatcher was reached
+		out := ImplOut{Kind: "disp", Rid: -1, Host: m.Host, Upstream: w.upstreamOf(p.info), Own: -1, Time: w.clock, Pipe: p.id, Proxied: -1, Code: rec.Code}
+		if p.proxy != nil {
+			out.Proxied = p.proxy.inst
+		}
+		w.mu.Lock()
+		w.outs = append(w.outs, out)
+		w.mu.Unlock()
+	}
+	w.afterChain(p.authnCalled, problem)
+}
+
+// runMids: scheduled items between two steps of a request. Events run in place; a nested request runs on its own thread.
+func (w *world) runMids(ms []Macro) {
+	for i := range ms {
+		m := &ms[i]
+		switch m.Op {
+		case "ev":
+			if m.Ev != nil {
+				w.doEv(m.Ev)
+			}
+		case "tok":
+			w.spawn("nested token request for host "+rig.UnHex(m.Host), func() { w.doTok(m) })
+		case "sar":
+			w.spawn("nested authorization request for host "+rig.UnHex(m.Host), func() { w.doSar(m) })
+		case "pipe":
+			w.spawn("nested whole-chain request for host "+rig.UnHex(m.Host), func() { w.doPipe(m) })
+		}
+	}
 }
 
 func (w *world) runMacros(ms []Macro) {
@@ -941,17 +1209,22 @@ type realResult struct {
 	Hang         bool
 	Terminated   int
 	Problems     []string
+	Overlaps     []string // nested requests that had to wait for the request they overlapped (diagnoses)
+	Stuck        []string // nested requests that never finished
+	Diagnosis    string   // on a hang: what every thread was doing
+	ExtraAttrs   []Attrs  // attributes built by the chain itself, appended to the case's for the judge
 }
 
 // runReal executes the case on the real code (with a watchdog: a case that blocks is reported, not waited for).
 func runReal(cs *Case) realResult {
 	done := make(chan realResult, 1)
+	w := newWorld(cs)
 	go func() {
-		w := newWorld(cs)
 		defer w.close()
 		w.runMacros(cs.Ops)
 		w.segCheck()
-		res := realResult{Outs: w.outs, Stalled: w.stalled, DropTimeouts: w.dropTimeouts, Terminated: w.terminated, Problems: w.chainProblems}
+		res := realResult{Outs: w.outs, Stalled: w.stalled, DropTimeouts: w.dropTimeouts, Terminated: w.terminated, Problems: w.chainProblems,
+			Overlaps: w.overlaps, Stuck: w.stuck, ExtraAttrs: w.extraAttrs}
 		tk, ok1 := w.cacheKeys(w.authn)
 		sk, ok2 := w.cacheKeys(w.authz)
 		res.TokKeys, res.SarKeys, res.KeysOK = tk, sk, ok1 && ok2
@@ -960,7 +1233,17 @@ func runReal(cs *Case) realResult {
 	select {
 	case r := <-done:
 		return r
-	case <-time.After(30 * time.Second):
-		return realResult{Hang: true}
+	case <-time.After(60 * time.Second):
+		// (last resort: nested requests run on their own threads and are diagnosed when they wait, so this should only
+		// happen when a request of the history itself never returns) say what every thread was doing
+		var d []string
+		for t := w.cur; t != nil; t = t.parent {
+			d = append(d, t.describe())
+		}
+		w.mu.Lock()
+		d = append(d, w.overlaps...)
+		d = append(d, w.stuck...)
+		w.mu.Unlock()
+		return realResult{Hang: true, Diagnosis: strings.Join(d, "; ")}
 	}
 }
